@@ -238,7 +238,8 @@ struct Runner {
 
 	Runner(Ctx &c_) : c(c_) {}
 
-	size_t usable(const Block &b) const { return poison ? std::max<size_t>(b.req, 1) : b.rep; }
+	// what the owner may write: the reported size, and in any case the bytes it asked for
+	size_t usable(const Block &b) const { return poison ? std::max<size_t>(b.req, 1) : std::max(b.rep, b.req); }
 	// Fill pattern: every byte of blocks up to 8 KiB; for larger blocks the first and last 512
 	// bytes and every 997th byte in between. `filled` remembers the extent the pattern was laid over.
 	template<typename F> static bool positions(size_t filled, size_t upto, F f) {
@@ -320,7 +321,7 @@ struct Runner {
 		size_t n1 = std::max<size_t>(b.req, 1);
 		Region *r = env.find(b.p);
 		VCHECK(c, "C01", r != nullptr, "%s: returned %#lx which lies in no region currently mapped by the policy", what, (unsigned long)b.p);
-		VCHECK(c, "C01", b.rep >= b.req && b.rep >= 1, "%s: get_size() reports %zu for a request of %zu bytes", what, b.rep, b.req);
+		VCHECK_OWN(c, "C01", b.rep >= b.req && b.rep >= 1, "%s: get_size() reports %zu for a request of %zu bytes", what, b.rep, b.req);
 		VCHECK(c, "C01", b.p + n1 <= r->base + r->len, "%s: the %zu requested bytes at %#lx extend past the mapped region [%#lx, +%zu)", what, n1, (unsigned long)b.p, (unsigned long)r->base, r->len);
 		VCHECK(c, "C01", b.p + b.rep <= r->base + r->len, "%s: the block at %#lx with reported size %zu extends past the mapped region [%#lx, +%zu)", what, (unsigned long)b.p, b.rep, (unsigned long)r->base, r->len);
 		size_t al = std::min(info.page, std::max<size_t>(8, pow2ceil(n1)));
@@ -487,8 +488,8 @@ struct Runner {
 		if((uintptr_t)q == old.p) {
 			inplace = true;
 			nb.rep = pool->get_size(q);
-			VCHECK(c, "C01", nb.rep == old.rep, "%s: in-place realloc changed the reported size from %zu to %zu", what, old.rep, nb.rep);
-			VCHECK(c, "C01", nb.rep >= n, "%s: in-place realloc to %zu bytes of a block of reported size %zu", what, n, nb.rep);
+			VCHECK_OWN(c, "C01", nb.rep == old.rep, "%s: in-place realloc changed the reported size from %zu to %zu", what, old.rep, nb.rep);
+			VCHECK_OWN(c, "C01", nb.rep >= n, "%s: in-place realloc to %zu bytes of a block of reported size %zu", what, n, nb.rep);
 			nb.klass = old.klass;
 			live[idx] = nb;
 			sync_ext();
